@@ -149,7 +149,7 @@ impl Scenario for StreamPos {
         let mut t = Trace::new("streampos", v.name);
         gen_stream_params(rng, &mut t, &v);
         let max_handles = rng.range(1, 4) as usize;
-        let nops = rng.range(3, if tier == Tier::Thorough { 40 } else { 24 });
+        let nops = if rng.chance(1, 300) { rng.range(300, 700) } else { rng.range(3, if tier == Tier::Thorough { 40 } else { 24 }) };
         let mut w = [10u32, 10, 0, 0, 0, 0];
         if rng.chance(1, 4) {
             w[K_REFUSED as usize] = 1; // misuse-injecting configuration
